@@ -38,7 +38,20 @@ ASSUMPTIONS = ['floating-point accuracy of softplus/log at |x| <= 40 is not deci
                'jax.random.normal(key, shape) is a deterministic function of (key, shape)']
 
 D = 'brax.training.distribution'
-HALF = Rat.lift(Fraction(1, 2))
+class _Half:
+  """1/2 in the current value domain (a module-level Rat would be tied to the domain it was created in)."""
+
+  def __mul__(self, o):
+    return Rat.lift(Fraction(1, 2)) * o
+
+  def __neg__(self):
+    return -Rat.lift(Fraction(1, 2))
+
+  def __add__(self, o):
+    return Rat.lift(Fraction(1, 2)) + o
+
+
+HALF = _Half()
 
 
 def ref_fldj(x):
@@ -47,11 +60,11 @@ def ref_fldj(x):
 
 def ref_logn(x, mu, sg):
   return elemwise(lambda xv, m_, s_: -HALF * ((xv - m_) / s_) * ((xv - m_) / s_) - uf('log', s_)
-                  - HALF * uf('log', 2 * avn.PI), x, mu, sg)
+                  - HALF * uf('log', 2 * avn.pi()), x, mu, sg)
 
 
 def ref_entropy_n(sg):
-  return elemwise(lambda s_: HALF + HALF * uf('log', 2 * avn.PI) + uf('log', s_), sg)
+  return elemwise(lambda s_: HALF + HALF * uf('log', 2 * avn.pi()) + uf('log', s_), sg)
 
 
 def ref_eps(key, shape):
@@ -231,6 +244,23 @@ def policy_network_keys(I, rep, U):
               where=f.where(apply_node), construct='running_statistics.normalize with nested mean / std; obs keys state, proprio')
 
 
+class _OnlyFailures:
+  """Further random-interpretation trials of an obligation already recorded: only a refutation is new information."""
+
+  def __init__(self, rep):
+    self.rep = rep
+
+  def ok(self, *a, **k):
+    pass
+
+  def fail(self, *a, **k):
+    self.rep.fail(*a, **k)
+
+  def check(self, cond, rule, key, message, **k):
+    if not cond:
+      self.rep.check(cond, rule, key + ' (trial)', message, **k)
+
+
 def run(U, rep, tier):
   I = new_interp(U.repo)
   policy_network_keys(I, rep, U)
@@ -240,8 +270,27 @@ def run(U, rep, tier):
     grid = [(b, e) for e in range(1, 7) for b in ((), (2,), (2, 2))]
     rep.exhaustive = True
   for batch, E in grid:
-    checks(I, rep, U, batch, E)
+    if E * max(1, int(np.prod(batch))) <= 2:
+      checks(I, rep, U, batch, E)          # exact rational normal forms
+    else:
+      # sums of E rational terms with distinct denominators expand combinatorially: larger event sizes / batches are
+      # decided by random interpretation (images in GF(p); an identity holds in every trial)
+      for t in range(3):
+        avn.field_mode(2000 + 17 * t)
+        try:
+          I2 = new_interp(U.repo)
+          checks(I2, rep if t == 0 else _OnlyFailures(rep), U, batch, E)
+        finally:
+          avn.exact_mode()
   for E in ((2,) if tier == 'quick' else (1, 2, 3, 6)):
-    inference(I, rep, U, E)
+    if E <= 2:
+      inference(I, rep, U, E)
+    else:
+      for t in range(3):
+        avn.field_mode(2100 + 13 * t)
+        try:
+          inference(new_interp(U.repo), rep if t == 0 else _OnlyFailures(rep), U, E)
+        finally:
+          avn.exact_mode()
   policy_network_apply(I, rep, U)
   rep.stat('interpreter_calls', I.calls)
